@@ -131,6 +131,36 @@ theorem RInv_stepJoinedC {s s' : State} {k : Key} (hi : RInv s) (h : stepJoinedC
   leaves h
   all_goals (subst h; refine RInv_of_rdOk (s := s) ?_ hi; rdok)
 
+theorem RInv_stepWTake {s s' : State}  (hi : RInv s) (h : stepWTake s  = some s') : RInv s' := by
+  unfold stepWTake at h
+  leaves h
+  all_goals (subst h; refine RInv_of_rdOk (s := s) ?_ hi; rdok)
+
+theorem RInv_stepWDo {s s' : State}  (hi : RInv s) (h : stepWDo s  = some s') : RInv s' := by
+  unfold stepWDo at h
+  leaves h
+  all_goals (subst h; refine RInv_of_rdOk (s := s) ?_ hi; rdok)
+
+theorem RInv_stepWBlock {s s' : State}  (hi : RInv s) (h : stepWBlock s  = some s') : RInv s' := by
+  unfold stepWBlock at h
+  leaves h
+  all_goals (subst h; refine RInv_of_rdOk (s := s) ?_ hi; rdok)
+
+theorem RInv_stepFlushStep {s s' : State} {k : Key} (hi : RInv s) (h : stepFlushStep s k = some s') : RInv s' := by
+  unfold stepFlushStep at h
+  leaves h
+  all_goals (subst h; refine RInv_of_rdOk (s := s) ?_ hi; rdok)
+
+theorem RInv_stepCancelWrite {s s' : State} {k : Key} (hi : RInv s) (h : stepCancelWrite s k = some s') : RInv s' := by
+  unfold stepCancelWrite StreamSt.endWrite at h
+  leaves h
+  all_goals (subst h; refine RInv_of_rdOk (s := s) ?_ hi; rdok)
+
+theorem RInv_stepCancelFlush {s s' : State} {k : Key} (hi : RInv s) (h : stepCancelFlush s k = some s') : RInv s' := by
+  unfold stepCancelFlush at h
+  leaves h
+  all_goals (subst h; refine RInv_of_rdOk (s := s) ?_ hi; rdok)
+
 theorem RInv_stepDoFlush {s s' : State}  (hi : RInv s) (h : stepDoFlush s  = some s') : RInv s' := by
   unfold stepDoFlush at h
   leaves h
@@ -152,7 +182,7 @@ theorem RInv_stepAppWrite {s s' : State} {slot : Nat} {bytes : List Nat} (hi : R
   all_goals (subst h; refine RInv_of_rdOk (s := s) ?_ hi; rdok)
 
 theorem RInv_stepWriteStep {s s' : State} {k : Key} (hi : RInv s) (h : stepWriteStep s k = some s') : RInv s' := by
-  unfold stepWriteStep at h
+  unfold stepWriteStep StreamSt.endWrite at h
   leaves h
   all_goals (subst h; refine RInv_of_rdOk (s := s) ?_ hi; rdok)
 
@@ -355,6 +385,13 @@ theorem RInv_step {s s' : State} {e : Event} (hl : LInv s) (hi : RInv s) (h : st
   case writeStep k => exact RInv_stepWriteStep hi h
   case appFlush a => exact RInv_stepAppFlush hi h
   case appDrop a b c => exact RInv_stepAppDrop hi h
+  case wtake => exact RInv_stepWTake hi h
+  case wdo => exact RInv_stepWDo hi h
+  case wblock => exact RInv_stepWBlock hi h
+  case txWindow l => cases h; exact RInv_of_rdOk (s := s) (fun k => rdOk_refl _) hi
+  case flushStep k => exact RInv_stepFlushStep hi h
+  case cancelWrite k => exact RInv_stepCancelWrite hi h
+  case cancelFlush k => exact RInv_stepCancelFlush hi h
 
 theorem RInv_reachable {s : State} (h : Reachable s) : RInv s := by
   have : LInv s ∧ RInv s :=
